@@ -691,7 +691,7 @@ class IndividualParameters:
         :class:`.IndividualParameters`
             Individual parameters object load from the file
         """
-        df = pd.read_csv(path, dtype={"ID": IDType}).set_index("ID")
+        df = pd.read_csv(path, dtype={"ID": IDType}, float_precision="round_trip").set_index("ID")
         ip = cls.from_dataframe(df)
 
         return ip
